@@ -2630,6 +2630,108 @@ fn parse_rustc_z_ls(stdout: &str) -> Result<Vec<&str>> {
     Ok(dep_names)
 }
 
+/// Verification hooks (`--cfg sccache_verif` only): public views of private items, no behaviour.
+#[cfg(sccache_verif)]
+pub const VERIF_CACHE_VERSION: &[u8] = CACHE_VERSION;
+
+#[cfg(sccache_verif)]
+pub fn verif_parse_dep_info(dep_info: &str, cwd: &Path) -> Vec<PathBuf> {
+    parse_dep_info(dep_info, cwd)
+}
+
+#[cfg(sccache_verif)]
+pub fn verif_parse_env_dep_info(dep_info: &str) -> Vec<(OsString, Option<OsString>)> {
+    parse_env_dep_info(dep_info)
+        .into_iter()
+        .map(|(var, val)| (var, val.into()))
+        .collect()
+}
+
+/// The fields of `ParsedArguments`, with `arguments` in the (flag, value) form that
+/// `generate_hash_key` works on and `emit` sorted.
+#[cfg(sccache_verif)]
+#[derive(Debug, Clone)]
+pub struct VerifParsedArguments {
+    pub arguments: Vec<(OsString, Option<OsString>)>,
+    pub output_dir: PathBuf,
+    pub externs: Vec<PathBuf>,
+    pub crate_link_paths: Vec<PathBuf>,
+    pub staticlibs: Vec<PathBuf>,
+    pub crate_name: String,
+    pub crate_type_rlib: bool,
+    pub crate_type_staticlib: bool,
+    pub dep_info: Option<PathBuf>,
+    pub profile: Option<PathBuf>,
+    pub gcno: Option<PathBuf>,
+    pub emit: Vec<String>,
+    pub color_mode: ColorMode,
+    pub has_json: bool,
+    pub target_json: Option<PathBuf>,
+}
+
+#[cfg(sccache_verif)]
+pub fn verif_parse_arguments(
+    arguments: &[OsString],
+    cwd: &Path,
+) -> CompilerArguments<VerifParsedArguments> {
+    match parse_arguments(arguments, cwd) {
+        CompilerArguments::Ok(p) => {
+            let mut emit: Vec<String> = p.emit.iter().cloned().collect();
+            emit.sort();
+            CompilerArguments::Ok(VerifParsedArguments {
+                arguments: p
+                    .arguments
+                    .iter()
+                    .map(|arg| {
+                        (
+                            arg.to_os_string(),
+                            arg.get_data().cloned().map(IntoArg::into_arg_os_string),
+                        )
+                    })
+                    .collect(),
+                output_dir: p.output_dir,
+                externs: p.externs,
+                crate_link_paths: p.crate_link_paths,
+                staticlibs: p.staticlibs,
+                crate_name: p.crate_name,
+                crate_type_rlib: p.crate_types.rlib,
+                crate_type_staticlib: p.crate_types.staticlib,
+                dep_info: p.dep_info,
+                profile: p.profile,
+                gcno: p.gcno,
+                emit,
+                color_mode: p.color_mode,
+                has_json: p.has_json,
+                target_json: p.target_json,
+            })
+        }
+        CompilerArguments::CannotCache(why, extra) => CompilerArguments::CannotCache(why, extra),
+        CompilerArguments::NotCompilation => CompilerArguments::NotCompilation,
+    }
+}
+
+#[cfg(sccache_verif)]
+impl Rust {
+    /// A `Rust` compiler description built from given values instead of by running rustc.
+    pub fn verif_new(
+        executable: PathBuf,
+        host: String,
+        version: String,
+        sysroot: PathBuf,
+        compiler_shlibs_digests: Vec<String>,
+    ) -> Rust {
+        Rust {
+            executable,
+            host,
+            version,
+            sysroot,
+            compiler_shlibs_digests,
+            #[cfg(feature = "dist-client")]
+            rlib_dep_reader: None,
+        }
+    }
+}
+
 #[cfg(test)]
 mod test {
     use super::*;
